@@ -729,6 +729,13 @@ func (t *tread) handle(cs *connState) message {
 		return newErr(linux.ENOBUFS)
 	}
 
+	// The reply has to fit in the negotiated message size: return less
+	// data rather than a frame the client is entitled to reject.
+	count := t.Count
+	if max := cs.maxPayloadSize(); count > max {
+		count = max
+	}
+
 	var n int
 	data := cs.readBufPool.Get().(*[]byte)
 	// Retain a reference to the full length of the buffer.
@@ -746,7 +753,7 @@ func (t *tread) handle(cs *connState) message {
 				return linux.EPERM
 			}
 
-			n, err = ref.file.ReadAt(dataBuf[:t.Count], int64(t.Offset))
+			n, err = ref.file.ReadAt(dataBuf[:count], int64(t.Offset))
 			return err
 
 		case xattrWalk:
@@ -769,7 +776,7 @@ func (t *tread) handle(cs *connState) message {
 				return linux.EINVAL
 			}
 
-			n = copy(dataBuf[:t.Count], ref.pendingXattr.buf[t.Offset:])
+			n = copy(dataBuf[:count], ref.pendingXattr.buf[t.Offset:])
 			return nil
 		default:
 			return linux.EINVAL
@@ -1068,6 +1075,12 @@ func (t *treaddir) handle(cs *connState) message {
 	}
 	defer ref.DecRef()
 
+	// The reply has to fit in the negotiated message size.
+	count := t.Count
+	if max := cs.maxPayloadSize(); count > max {
+		count = max
+	}
+
 	var entries []Dirent
 	if err := ref.safelyRead(func() (err error) {
 		// Don't allow reading deleted directories.
@@ -1081,7 +1094,7 @@ func (t *treaddir) handle(cs *connState) message {
 		}
 
 		// Read the entries.
-		entries, err = ref.file.Readdir(t.Offset, t.Count)
+		entries, err = ref.file.Readdir(t.Offset, count)
 		if err != nil && !errors.Is(err, io.EOF) {
 			return err
 		}
@@ -1090,7 +1103,7 @@ func (t *treaddir) handle(cs *connState) message {
 		return newErr(err)
 	}
 
-	return &rreaddir{Count: t.Count, Entries: entries}
+	return &rreaddir{Count: count, Entries: entries}
 }
 
 // handle implements handler.handle.
